@@ -350,6 +350,17 @@ def rule_r2(ctx: Ctx) -> None:
                     else:
                         where = [norm(enclosing_stmt(u))[:50] for u in uses if u not in eager_uses][:2]
                         sink = f"bound to '{p.targets[0].id}' and then used lazily in {where}"
+                if isinstance(p, (ast.Assign, ast.AnnAssign)) and isinstance(p.targets[0] if isinstance(p, ast.Assign) else p.target, ast.Attribute):
+                    # kept on a helper object (a work-list entry holding an iterator over a node's children): fine when every read of that attribute
+                    # in the module consumes it step by step or at once (next(x.attr, ..), for .. in x.attr, list(x.attr)) - it never becomes a value
+                    tgt_ = p.targets[0] if isinstance(p, ast.Assign) else p.target
+                    loads_ = [u for u in ast.walk(f.module.tree) if isinstance(u, ast.Attribute) and u.attr == tgt_.attr and isinstance(u.ctx, ast.Load)]
+                    def _consumed(u):
+                        q = parent(u)
+                        return (isinstance(q, ast.Call) and u in q.args and call_name(q) in EAGER | {"next"}) \
+                            or (isinstance(q, (ast.For, ast.comprehension)) and q.iter is u) or isinstance(q, ast.YieldFrom)
+                    if loads_ and all(_consumed(u) for u in loads_):
+                        ok = True
                 if isinstance(p, ast.Return) and _lazy_helper_consumed(prog, f, 0):
                     ok = True      # a private helper that returns an iterator: every call site consumes it on the spot
                 if not ok and isinstance(p, ast.Call) and (g in p.args or any(k.value is g for k in p.keywords)) and _param_consumed_eagerly(prog, f, p, g):
